@@ -135,7 +135,7 @@ pub fn hss_verify<H: HashChain>(
     signature: &[u8],
     public_key: &[u8],
 ) -> Result<(), Error> {
-    #[cfg(hbs_lms_verif)]
+    #[cfg(all(hbs_lms_verif, hbs_lms_verif_trace))]
     if crate::verif_trace::enter() {
         use crate::verif_trace as vt;
         let result = hss_verify::<H>(message, signature, public_key);
@@ -214,7 +214,7 @@ fn hss_sign_core<H: HashChain>(
     private_key_update_function: &mut dyn FnMut(&[u8]) -> Result<(), ()>,
     aux_data: Option<&mut &mut [u8]>,
 ) -> Result<Signature, Error> {
-    #[cfg(hbs_lms_verif)]
+    #[cfg(all(hbs_lms_verif, hbs_lms_verif_trace))]
     if crate::verif_trace::enter() {
         use crate::verif_trace as vt;
         let mut message_mut = message_mut;
@@ -347,7 +347,7 @@ pub fn hss_keygen<H: HashChain>(
     seed: &Seed<H>,
     aux_data: Option<&mut &mut [u8]>,
 ) -> Result<(SigningKey<H>, VerifyingKey<H>), Error> {
-    #[cfg(hbs_lms_verif)]
+    #[cfg(all(hbs_lms_verif, hbs_lms_verif_trace))]
     if crate::verif_trace::enter() {
         use crate::verif_trace as vt;
         let mut aux_data = aux_data;
